@@ -5,5 +5,5 @@ SPEC = seq_spec(
     "Lean 4 theorems over all interleavings of submitters with every phase of a round, failed rounds and cache losses: every acknowledgement (round, pool, in-sequencing map, cache) names an index that holds that entry class with that timestamp in a published tree; submissions resolved by a lookup change nothing (no extra leaf); lookups precede admission; one leaf per pool slot; equal index implies equal timestamp/class. Tie: effect skeleton + AST digest equality of the two computeCacheHash copies is in C10's tie. Oracle: equal keys get equal (index, timestamp) unless the cache was lost; leaves of a commit = admitted non-evicted submissions.",
     "Trusted: Lean kernel, standard axioms, extractor, harness stores/scheduler, Lean SHA-256 rendering. Assumes the Backend/LockBackend contracts, collision resistance, unforgeability.",
     "invariants by induction over all accepted event sequences (Lean 4) + regenerated effect-skeleton tie + trace acceptance of the real code with byte-exact rendering",
-    required=['C07_ack_true', 'C07_no_extra_leaf', 'C07_dedup_order', 'C07_leaf_per_admission'],
+    extra_tie=["Tie.Cache"], required=['C07_ack_true', 'C07_no_extra_leaf', 'C07_dedup_order', 'C07_leaf_per_admission'],
 )
